@@ -794,8 +794,8 @@ func validateHeaderLabelCBOR(data []byte) error {
 	return ensureUntaggedHeaderLabels(data)
 }
 
-// ensureUntaggedHeaderLabels refuses a header map with a label wrapped in the
-// self-described CBOR tag (55799). The CBOR decoder strips that tag before it
+// ensureUntaggedHeaderLabels refuses a header (or COSE_Key) map with a label
+// wrapped in the self-described CBOR tag (55799). The CBOR decoder strips that tag before it
 // hands a map key to headerLabelValidator, so such a label would otherwise be
 // taken for the int / tstr it encloses. data must be a well-formed header map.
 func ensureUntaggedHeaderLabels(data []byte) error {
